@@ -128,7 +128,9 @@ func Seq2[M ~map[K]V, K comparable, V any](m M, site string) iter.Seq2[K, V] {
 			mu.Lock()
 			n := len(occs)
 			occs = append(occs, Occ{Site: site, N: len(keys)})
-			p = plan[n]
+			// a deviation elsewhere may have changed which map this occurrence ranges over:
+			// reduce the planned permutation number to the permutations this map has
+			p = plan[n] % Perms(len(keys))
 			mu.Unlock()
 		}
 		for _, i := range permute(len(keys), p) {
